@@ -533,6 +533,11 @@ func (m *Middleware) SetDebug(b bool) {
 	m.mu.Lock()
 	{
 		m.debug = b
+		if m.icfg == nil {
+			// The debug mode of a passthrough middleware is invariably off;
+			// otherwise, a later successful call to Reconfigure would revive it.
+			m.debug = false
+		}
 	}
 	m.mu.Unlock()
 }
